@@ -41,6 +41,15 @@ def cases(tier, seed):
                 if n <= (2 if tier == "quick" else 3):
                     yield (K, p, U, "small", "none")
                 yield (K, p, U, "2d", "none")
+    for c in high_cases(tier):
+        yield c
+
+
+def high_cases(tier):
+    a, b, cands = al.ALPHABETS["K0"]
+    for p in ((4, 5) if tier == "quick" else (4, 5, 6)):
+        yield ("K0", p, tuple([a] * (p + 1) + [b] * (p + 1)), "generic", "const")
+    yield ("K0", 4, tuple([a] * 5 + [cands[1]] + [b] * 5), "generic", "const")
 
 
 def describe(case):
@@ -117,6 +126,8 @@ def run_case(case, res):
         Ps = [[F(x) for x in v] for v in itertools.product((-1, 0, 2), repeat=n)]
     W = {"none": None, "generic": al.generic_weights(n), "const": [F(2)] * n}[wkind]
     hows = ["id", "ins1", "elev", "elev+ins2"] if p < 3 else ["id", "ins1", "ins2"]
+    if p >= 4:
+        hows = ["id", "ins1"]  # high degree: the polynomial / constant-weight rational pair is the point of these cases
     if W is not None:
         hows = hows[:3]  # rational equality goes through curve products (slow): three representations
     elif len(set(U)) >= 4:
